@@ -353,14 +353,18 @@ Definition idx_tensor (ix : Model.hindex) : tens6 :=
 Definition rows_tensor (B V : nat) (rows : list (list Model.val)) : tens6 :=
   T6 [B; V] (map (fun v => CF (fl_of v)) (List.concat rows)).
 
-(* the arguments of _lookup_calc_idx_log_probs(hist, hidx, offsets, ids, logps, logbs, sos, V, N, G, S) *)
+(* the arguments of _lookup_calc_idx_log_probs(hist, hidx, offsets, ids, logps, logbs, sos, V, N, G, S) + the module
+   global `torch` *)
+Definition vars06 (hist hidx offsets ids logps logbs : tens6) (sos V N G S : Z) : list (string * val) :=
+  [("hist", enc6 hist); ("hidx", enc6 hidx); ("offsets", enc6 offsets); ("ids", enc6 ids);
+   ("logps", enc6 logps); ("logbs", enc6 logbs); ("sos", VInt sos); ("V", VInt V); ("N", VInt N);
+   ("G", VInt G); ("S", VInt S)] ++ globals06.
+
 Definition lookup_vars (b : Model.bufs) (sh : Model.shape) (hist : list (list Z)) (B : nat) (ix : Model.hindex)
   : list (string * val) :=
-  [("hist", enc6 (hist_tensor hist B)); ("hidx", enc6 (idx_tensor ix));
-   ("offsets", enc6 (ivec (Model.offsets b))); ("ids", enc6 (ivec (Model.ids b)));
-   ("logps", enc6 (fvec (Model.logps b))); ("logbs", enc6 (fvec (Model.logbs b)));
-   ("sos", VInt (Model.sos sh)); ("V", VInt (Model.vocab sh)); ("N", VInt (Z.of_nat (Model.order sh)));
-   ("G", VInt (Model.gnodes sh)); ("S", VInt (Z.of_nat (Model.maxdesc sh)))] ++ globals06.
+  vars06 (hist_tensor hist B) (idx_tensor ix) (ivec (Model.offsets b)) (ivec (Model.ids b))
+    (fvec (Model.logps b)) (fvec (Model.logbs b))
+    (Model.sos sh) (Model.vocab sh) (Z.of_nat (Model.order sh)) (Model.gnodes sh) (Z.of_nat (Model.maxdesc sh)).
 
 (* `self`: the attributes calc_idx_log_probs reads *)
 Definition self_value (b : Model.bufs) (sh : Model.shape) : val :=
